@@ -222,7 +222,7 @@ def run(ctx):
     for key in sorted(sel_ippo):
         for cols, E, G in batches(sel_ippo[key], [(1, 1), (2, 1), (1, 2), (2, 2)], rng):
             roll = pack(cols, E, G)
-            for tr in gae.run_ippo([("agent", strip(roll))], ("loop", "loop", "row")[k % 3], perturb_seed=ctx.seed + k):
+            for tr in gae.run_ippo([("agent", strip(roll))], ("loop", "loop", "row")[k % 3], perturb_seed=ctx.seed + k, order=("id", "rev")[k % 2]):
                 add(tr, roll)
             k += 1
     n_ippo_grid = len(traces) - n_ppo_grid
@@ -239,7 +239,7 @@ def run(ctx):
         groups = [("agent", random_roll(rng, T, E, G, gn, ln, pd))]
         if j % 4 == 0:
             groups.append(("other", random_roll(rng, T, E, rng.randint(1, 2), gn, ln, pd)))
-        for tr, (_, roll) in zip(gae.run_ippo(groups, ("loop", "row")[j % 2], perturb_seed=ctx.seed + j), groups):
+        for tr, (_, roll) in zip(gae.run_ippo(groups, ("loop", "row")[j % 2], perturb_seed=ctx.seed + j, order=("rev", "id")[j % 2]), groups):
             add(tr, roll)
     ctx.extra.update({"ppo_grid_calls": n_ppo_grid, "ippo_grid_calls": n_ippo_grid,
                       "random_traces": len(traces) - n_ppo_grid - n_ippo_grid})
@@ -345,7 +345,7 @@ def replay(path):
     if c["alg"] == "ppo":
         new = gae.run_ppo(roll, c["obs"], c["form"], perturb_seed=rp.get("seed", 0))
     else:
-        new = gae.run_ippo([("agent", roll)], c["nd_form"], perturb_seed=rp.get("seed", 0))[0]
+        new = gae.run_ippo([("agent", roll)], c["nd_form"], perturb_seed=rp.get("seed", 0), order=c.get("order", "id"))[0]
     v = trace_mod.validate("GAE_Trace", TRACE_CFG, [new])[0]
     for i, e in enumerate(new["ev"], start=1):
         mark = "  <-- rejected here: " + "; ".join(v.clauses) if (not v.accepted and i == v.step) else ""
